@@ -44,16 +44,31 @@ APPS_KNOBS = {'n_min': 2, 'n_max': 4,
               'n_actions': [2, 3, 4, 6], 'early_p': 0.3}
 
 
+# an additional family: a peer restarts quicker than the detection delay (and is fenced, or dies again for good), then,
+# much later, ANOTHER peer falls silent: the detection must still work after the first episode
+QUICK_KNOBS = {'n_min': 3, 'n_max': 4, 'late_p': 0.0, 'trigger_p': 0.0,
+               'fixed_script': [[{'kind': 'restart', 'down': (0.2, 6.0), 'gap_ticks': [2, 4]},
+                                 {'kind': 'crash'}],
+                                [{'kind': 'restart', 'down': (0.2, 6.0), 'gap_ticks': [2, 4]},
+                                 {'kind': 'crash', 'same_target': True, 'gap_ticks': [1, 2, 3]},
+                                 {'kind': 'crash'}]],
+               'apps': {'n_apps': (1, 2), 'n_progs': (1, 3), 'startsecs': (0, 4)}}
+QUICK_COUNT = {'quick': 120, 'thorough': 2000}
+
+
 def plan(tier, seed):
     # two workload families: membership faults, and instance losses in the middle of application activity
     return [{'seed': seed * 1000003 + i, 'family': 'apps' if i % 3 == 2 else 'membership'}
-            for i in range(COUNT[tier])]
+            for i in range(COUNT[tier])] + \
+        [{'seed': seed * 1000003 + 700000 + i, 'family': 'quick-restart-then-silence'} for i in range(QUICK_COUNT[tier])]
 
 
 def run_case(case):
     mon = FailureDetectionMonitor()
     if case.get('family', 'membership') == 'membership':
         run = Run(case, KNOBS, [mon])
+    elif case['family'] == 'quick-restart-then-silence':
+        run = Run(case, QUICK_KNOBS, [mon])
     else:
         from workloads.apps import Run as AppsRun
         run = AppsRun(case, APPS_KNOBS, [mon])
